@@ -2,6 +2,7 @@ package main
 
 import (
 	"fmt"
+	"os"
 	"go/ast"
 	"go/types"
 	"sort"
@@ -413,7 +414,7 @@ func ruleNameResolution(c *Ctx, r *Repo, rule string) {
 		ast.Inspect(gen.Body, func(n ast.Node) bool {
 			switch x := n.(type) {
 			case *ast.RangeStmt:
-				if types.ExprString(x.X) == "methods" {
+				if typeIs(info.TypeOf(x.X), "[]template.Method") {
 					if v, ok := x.Value.(*ast.Ident); ok {
 						ast.Inspect(x.Body, func(m ast.Node) bool {
 							if call, ok := m.(*ast.CallExpr); ok && strings.HasSuffix(calleeName(info, call), "MethodScope).ResolveVariableNameCollisions") {
@@ -437,7 +438,7 @@ func ruleNameResolution(c *Ctx, r *Repo, rule string) {
 	}
 	if fd := FuncDecl(tp, "MethodScope.ResolveVariableNameCollisions"); fd != nil {
 		info := tp.TypesInfo
-		rs := rangeOver(fd, ".vars")
+		rs := rangeOverC(tp, fd, "RECV.vars")
 		ok := false
 		if rs != nil {
 			d := newDT(info)
@@ -486,7 +487,8 @@ func ruleTypeParams(c *Ctx, r *Repo, rule string) {
 	}
 	ok := false
 	if loop != nil {
-		if iv, bound, isLoop := countingLoop(info, loop); isLoop && types.ExprString(bound) == "len(tpd)" {
+		fct := newFuncCanon(info, fd)
+		if iv, bound, isLoop := countingLoop(info, loop); isLoop && (strings.HasPrefix(fct.E(bound), "builtin.len(") && typeIs(info.TypeOf(bound.(*ast.CallExpr).Args[0]), "[]template.TypeParam") || fct.E(bound) == "ARG1.Len<(go/types.TypeParamList).Len>()") {
 			s := nodeString(loop.Body)
 			at := false
 			ast.Inspect(loop.Body, func(n ast.Node) bool {
@@ -500,7 +502,7 @@ func ruleTypeParams(c *Ctx, r *Repo, rule string) {
 			store := false
 			ast.Inspect(loop.Body, func(n ast.Node) bool {
 				if as, isAs := n.(*ast.AssignStmt); isAs && len(as.Lhs) == 1 {
-					if ie, isIdx := as.Lhs[0].(*ast.IndexExpr); isIdx && types.ExprString(ie.X) == "tpd" {
+					if ie, isIdx := as.Lhs[0].(*ast.IndexExpr); isIdx && typeIs(info.TypeOf(ie.X), "[]template.TypeParam") {
 						if id, isId := ie.Index.(*ast.Ident); isId && info.Uses[id] == iv {
 							store = true
 						}
@@ -508,10 +510,36 @@ func ruleTypeParams(c *Ctx, r *Repo, rule string) {
 				}
 				return true
 			})
-			ok = at && store && strings.Contains(s, "tp.Obj().Name()") && strings.Contains(s, "tp.Constraint()")
+			nameOK, consOK := false, false
+			ast.Inspect(loop.Body, func(n ast.Node) bool {
+				if call, isCall := n.(*ast.CallExpr); isCall {
+					cx := fct.E(call)
+					if strings.Contains(cx, ".Obj<(go/types.TypeParam).Obj>().Name<") && strings.HasSuffix(cx, ".Name>()") && strings.Contains(cx, ".At<(go/types.TypeParamList).At>(") {
+						nameOK = true
+					}
+					if strings.HasSuffix(cx, ".Constraint<(go/types.TypeParam).Constraint>()") && strings.Contains(cx, ".At<(go/types.TypeParamList).At>(") {
+						consOK = true
+					}
+				}
+				return true
+			})
+			_ = s
+			if os.Getenv("MVCHECK_DEBUG") != "" {
+				fmt.Println("typeParams:", at, store, nameOK, consOK)
+			}
+			ok = at && store && nameOK && consOK
 		}
 	}
-	sized := strings.Contains(nodeString(fd.Body), "make([]template.TypeParam, tparams.Len())") || strings.Contains(typesExprOfMake(fd), "tparams.Len()")
+	sized := false
+	{
+		fct := newFuncCanon(info, fd)
+		ast.Inspect(fd.Body, func(n ast.Node) bool {
+			if call, ok := n.(*ast.CallExpr); ok && calleeName(info, call) == "builtin.make" && len(call.Args) == 2 && fct.E(call.Args[1]) == "ARG1.Len<(go/types.TypeParamList).Len>()" {
+				sized = true
+			}
+			return true
+		})
+	}
 	c.Check(ok && sized, rule, "typeParams|index-for-index", r.Pos(fd.Pos()), "type parameter i <- tparams.At(i) with its own name and constraint", "typeParams does not reproduce type parameter i from tparams.At(i) (name and constraint) for every i < tparams.Len()")
 }
 
